@@ -305,7 +305,8 @@ def run_sequence(mname, seq):
     # process level would contaminate a reference built in this process as well)
     if "solve_scs_capped" in seq[:-1] and rA["exc"] is None:
         ref = _fresh_in_fork(mname, [o for o in seq if o in EDITS], seq[-1])
-        if ref is not None and ref["status"] == "optimal" and (rA["status"] != "optimal" or rA["value"] is None
+        # (the status alone is not compared: the one more objective leaf per solve can tip `optimal` into `optimal_inaccurate`)
+        if ref is not None and ref["status"] == "optimal" and (rA["value"] is None
                                                                or abs(rA["value"] - ref["value"]) > 5e-2 * max(1.0, abs(ref["value"]))):
             probs.append(("resolve:option-outlived-its-solve", "after an earlier solve capped at 3 iterations the last solve returns %r (%s); "
                           "the same model solved with the same options in a pristine process returns %r (optimal)" % (rA["value"], rA["status"], ref["value"])))
